@@ -224,6 +224,44 @@ impl Prop for C02 {
             },
         ));
         f.push(Family::new(
+            "quotient-chains",
+            Mode::Full,
+            "'a / b / c' for a, b, c over [1, 4, 9, 10, 12, 13, 20, 28, 30, 31, 32, 40, 2021] in 3 spacings, alone, as 'x = ...' and as '3 + a/b/c': left-associative division unless the three operands read as a valid day/month/year (those are dates by design and are left out by the calendar rule, not by what the calculator answers)",
+            move |ch| {
+                let ns = [1i64, 4, 9, 10, 12, 13, 20, 28, 30, 31, 32, 40, 2021];
+                let (a, b, c) = (*ch.pick(&ns), *ch.pick(&ns), *ch.pick(&ns));
+                let chain = match ch.choose(3) {
+                    0 => format!("{} / {} / {}", a, b, c),
+                    1 => format!("{}/{}/{}", a, b, c),
+                    _ => format!("{} /{} / {}", a, b, c),
+                };
+                let q = a as f64 / b as f64 / c as f64;
+                let (text, want) = match ch.choose(3) {
+                    0 => (chain, q),
+                    1 => (format!("x = {}", chain), q),
+                    _ => (format!("3 + {}", chain), 3.0 + q),
+                };
+                Some(Case { expr: Expr::Lit("0".into(), None), style: Style::Minimal, assign: None, raw: Some((text, want)) })
+            },
+        ));
+        f.push(Family::new(
+            "suffix-any-language-tag",
+            Mode::Full,
+            "each magnitude suffix k K M G T P Z Y on literals [2, 1,5] alone, in a sum and as 'x = 5<s> / 2' under the language tags tr, xx (not configured) and en-US (not configured): the suffix scales the literal whatever the tag is",
+            move |ch| {
+                let suf = *ch.pick(&['k', 'K', 'M', 'G', 'T', 'P', 'Z', 'Y']);
+                let f10 = arith::suffix_factor(suf);
+                let lang = *ch.pick(&["tr", "xx", "en-US"]);
+                let (text, want) = match ch.choose(4) {
+                    0 => (format!("2{}", suf), 2.0 * f10),
+                    1 => (format!("2{} + 1", suf), 2.0 * f10 + 1.0),
+                    2 => (format!("1,5{} * 2", suf), 1.5 * f10 * 2.0),
+                    _ => (format!("x = 5{} / 2", suf), 5.0 * f10 / 2.0),
+                };
+                Some(Case { expr: Expr::Lit(lang.into(), None), style: Style::Minimal, assign: Some("@lang".into()), raw: Some((text, want)) })
+            },
+        ));
+        f.push(Family::new(
             "magnitudes",
             Mode::Full,
             "all binary trees with 2..=3 leaves x 4 operators over literals of extreme magnitude [0.0000000000000001, 0.000001, 0.1, 0.2, 0.3, 1, 3, 123456789012, 0] and 5Y / 4Z: tiny but non-zero divisors (also as rounding residues such as 0,3 - 0,1 - 0,2), huge quotients, exact zeros",
@@ -267,23 +305,35 @@ impl Prop for C02 {
 
     fn exec(&self, ctx: &mut Ctx, case: &Case) -> Verdict {
         let conv = Conv::default_lib();
-        let toks = arith::tokens(&case.expr, case.style, &conv);
-        let mut text = arith::join(&toks, case.style);
-        if let Some(name) = &case.assign {
-            text = match case.style {
-                Style::Tight => format!("{}={}", name, text),
-                _ => format!("{} = {}", name, text),
-            };
-        }
-        if arith::has_date_triple(&toks) || arith::text_has_date_triple(&text) {
+        let mut lang = "en".to_string();
+        let (text, want, excluded) = match &case.raw {
+            Some((t, w)) => {
+                if case.assign.as_deref() == Some("@lang") {
+                    if let Expr::Lit(l, _) = &case.expr {
+                        lang = l.clone();
+                    }
+                }
+                (t.clone(), *w, arith::text_has_date_triple(t))
+            }
+            None => {
+                let toks = arith::tokens(&case.expr, case.style, &conv);
+                let mut text = arith::join(&toks, case.style);
+                if let Some(name) = &case.assign {
+                    text = match case.style {
+                        Style::Tight => format!("{}={}", name, text),
+                        _ => format!("{} = {}", name, text),
+                    };
+                }
+                let ex = arith::has_date_triple(&toks) || arith::text_has_date_triple(&text);
+                (text.clone(), arith::eval(&case.expr), ex)
+            }
+        };
+        if excluded {
             return Verdict::pass(text, "excluded-date-triple", false, String::new(), 0);
         }
-        let mut want = arith::eval(&case.expr);
-        if let Some((t, w)) = &case.raw {
-            text = t.clone();
-            want = *w;
-        }
-        let run = obs::eval(ctx.calc(&Cfg::default()), "en", &text);
+        let line = text.clone();
+        let run = obs::eval(ctx.calc(&Cfg::default()), &lang, &line);
+        let text = if lang == "en" { text } else { format!("[{}] {}", lang, text) };
         let observed = run.brief();
         let mut v = Verdict { input: text, class: "value-compared", compared: true, expected: format!("Number({:?})", want), observed, evals: 1, ..Default::default() };
         match &run {
@@ -298,8 +348,8 @@ impl Prop for C02 {
                     } else {
                         // the same expression followed by a comment with multi-byte characters, and as
                         // the second line of a text
-                        for (what, t) in [("followed by a multi-byte comment", format!("{} # yıl İ ŉ 日本", v.input)), ("as the second line of a text", format!("7\n{}", v.input))] {
-                            let r = obs::eval(ctx.calc(&Cfg::default()), "en", &t);
+                        for (what, t) in [("followed by a multi-byte comment", format!("{} # yıl İ ŉ 日本", line)), ("as the second line of a text", format!("7\n{}", line))] {
+                            let r = obs::eval(ctx.calc(&Cfg::default()), &lang, &t);
                             v.evals += 1;
                             let ok = matches!(r.last(), Some(Slot::Ok { val: Val::Number(y, _), .. }) if obs::close(*y, want, 1e-12));
                             if !ok {
